@@ -37,7 +37,7 @@ def gen_history(rng, cfg, nlisteners, polite):
             steps.append(("connect", cid, rng.randrange(nlisteners)))
             connected.append(cid)
             if polite or rng.random() < 0.7:
-                steps.append(("send", cid, rng.choice(["ka", "ka", "close", "half", "gated", "bad"])))
+                steps.append(("send", cid, rng.choice(["ka", "ka", "close", "half", "gated", "bad", "boom"])))
                 if steps[-1][2] == "half":
                     half.add(cid)
                 if steps[-1][2] == "gated":
@@ -48,7 +48,7 @@ def gen_history(rng, cfg, nlisteners, polite):
                 steps.append(("send", cid, "rest"))
                 half.discard(cid)
             else:
-                what = rng.choice(["ka", "ka", "close", "half", "gated"])
+                what = rng.choice(["ka", "ka", "close", "half", "gated", "boom"])
                 steps.append(("send", cid, what))
                 if what == "half":
                     half.add(cid)
@@ -125,7 +125,7 @@ def run_case(run, e5, case):
 
 def enum_histories(maxlen):
     """All histories up to maxlen steps over a small alphabet for threads=1, worker_connections=2, keepalive=1, two clients."""
-    alpha = [("connect", 0), ("connect", 1), ("send", 0, "ka"), ("send", 1, "ka"), ("send", 0, "close"), ("send", 1, "half"),
+    alpha = [("connect", 0), ("connect", 1), ("send", 0, "ka"), ("send", 1, "ka"), ("send", 0, "close"), ("send", 0, "boom"), ("send", 1, "half"),
              ("send", 1, "rest"), ("time", 0.7), ("time", 1.5), ("disconnect", 0), ("disconnect", 1), ("phantom", 0)]
     out = [[]]
     frontier = [[]]
